@@ -7,7 +7,8 @@ _NOTE = ('Trusted base: Python/numpy/scipy/networkx, Hypothesis, the generators 
 
 CHECKS = {
     'C01': {
-        'text': 'Generated operation histories on SpectralInformation compared step by step with an independent '
+        'text': 'Generated operation histories on SpectralInformation (gains, losses, ASE, NLI, split into up to five bands and '
+                'merge in any order, repeated receiver evaluations) compared step by step with an independent '
                 'three-powers-per-channel reference model, plus real propagations through generated designed networks '
                 'with the decomposition and the reported receiver identity checked after every element.',
         'note': _NOTE,
@@ -51,7 +52,8 @@ CHECKS = {
         'technique': 'property-based testing: reference model of the documented power rule + differential design-vs-propagation',
     },
     'C10': {
-        'text': 'select_edfa() on generated libraries against an own capability/NF ranking, and the models chosen by the real '
+        'text': 'Multiband: models chosen for untyped C+L amplifiers are permitted, consistent over the bands, capable and not dominated in noise figure. '
+                'select_edfa() on generated libraries against an own capability/NF ranking, and the models chosen by the real '
                 'design in generated networks against the permitted set by documented precedence (variety list, ROADM '
                 'restriction, allowed_for_design, band, Raman rule).',
         'note': _NOTE,
@@ -79,7 +81,7 @@ CHECKS = {
         'technique': 'property-based testing: closed-form reference model + metamorphic relations',
     },
     'C05': {
-        'text': 'Generated chains of fibres (scalar/per-frequency loss, lumped losses, connectors) with ROADM/amplifier PMD/PDL '
+        'text': 'Generated chains of fibres (scalar/per-frequency loss listed in any order, lumped losses, connectors) with ROADM / amplifier / multiband-amplifier PMD/PDL '
                 'contributions: per-channel loss budget, additive CD/latency, quadrature PMD/PDL, span-order invariance; Raman '
                 'solver: low-power limit, perturbative vs numerical agreement within the derived Euler bound, lumped loss applied '
                 'once, counter-propagating pumps only add gain.',
@@ -124,7 +126,7 @@ CHECKS = {
         'technique': 'property-based testing: model-derived expected output + differential (.xlsx vs .xls branch) + fault injection of sheet rules',
     },
     'C07': {
-        'text': 'Networks whose links carry different amplifier bands (C, reduced C, short C, C+L multiband) and arbitrary carrier '
+        'text': 'Networks whose links carry different amplifier bands (C, reduced C, short C, C+L multiband, three-band lines) and arbitrary carrier '
                 'lists placed on band edges and in band gaps through the real propagate() under the element recorder: the '
                 'frequency list after the pre-filter and after every element equals the own interval-arithmetic expectation, '
                 'per-channel data travels with its frequency, invalid spectra are rejected, carrier order is irrelevant '
